@@ -30,7 +30,7 @@ import (
 func init() {
 	core.Register(&core.Property{
 		ID:   "C03",
-		Rule: "generated programs (every node kind, every function of the table), every function of the table x 10 receivers x 80 argument lists of arity 0..3 built from aliasing collections and non-literal values, and a fixed list of aliasing-sensitive programs x generated resources of every R4 type x environment variables that alias the resource (%r the resource, %kids a collection sharing the backing array of a caller-held slice, %sub a sub-slice with spare capacity, %e an empty collection with spare capacity, sentinels in every spare region); before/after every Evaluate (successful or not): deterministic proto bytes of the resource and of every env element, slice header and whole capacity region of every env collection, reflect-based deep digest of the compiled expression; every FHIR element in a result must be one of the input's own nodes. distinct_nontrivial = distinct (program shape, resource type) evaluations that returned at least one item or an error after partial evaluation",
+		Rule: "generated programs (every node kind, every function of the table), every function of the table x 10 receivers x 80 argument lists of arity 0..3 built from aliasing collections and non-literal values, and a fixed list of aliasing-sensitive programs x generated resources of every R4 type x environment variables that alias the resource (%r the resource, %kids a collection sharing the backing array of a caller-held slice, %sub a sub-slice with spare capacity, %e an empty collection with spare capacity, sentinels in every spare region); before/after every Evaluate (successful or not): deterministic proto bytes of the resource and of every env element, slice header and whole capacity region of every env collection, reflect-based deep digest of the compiled expression; every FHIR element in a result must be one of the input's own nodes. type-operator programs over every descendant, inputs with selected-but-nil choice members compared by Go-level shape; distinct_nontrivial = distinct (program shape, resource type) evaluations that returned at least one item or an error after partial evaluation",
 		Assumptions: []string{"typed-reference strings and elements under `contained` are synthesized/unpacked into fresh objects by design (compared by value)",
 			"Mutable() on an empty list is invisible in proto semantics and is not flagged"},
 		Run:    runC03,
